@@ -48,7 +48,7 @@ class Endpoint:
 
 
 def build_frame(src: Endpoint, dst: Endpoint, proto: str, payload: bytes, seq=0, ack=0, flags=0x18,
-                transport_sum=None, ip_id=0, ttl=64, udp_zero_checksum=False, tcp_options=b"", v6_ext=False):
+                transport_sum=None, ip_id=0, ttl=64, udp_zero_checksum=False, tcp_options=b"", v6_ext=False, v4_opts=b""):
     """Returns a complete Ethernet frame.  transport_sum overrides the (correct)
     transport checksum when given."""
     v6 = len(src.ip) == 16
@@ -81,7 +81,9 @@ def build_frame(src: Endpoint, dst: Endpoint, proto: str, payload: bytes, seq=0,
             ip = struct.pack("!IHBB", 6 << 28, len(seg), pnum, ttl) + src.ip + dst.ip
         etype = 0x86DD
     else:
-        ip = struct.pack("!BBHHHBBH", 0x45, 0, 20 + len(seg), ip_id & 0xFFFF, 0x4000, ttl, pnum, 0) + src.ip + dst.ip
+        assert len(v4_opts) % 4 == 0 and len(v4_opts) <= 40
+        ihl = 5 + len(v4_opts) // 4       # IPv4 options (RFC 791 3.1) lengthen the header; they are not part of the pseudo header
+        ip = struct.pack("!BBHHHBBH", 0x40 | ihl, 0, ihl * 4 + len(seg), ip_id & 0xFFFF, 0x4000, ttl, pnum, 0) + src.ip + dst.ip + v4_opts
         ip = ip[:10] + struct.pack("!H", inet_checksum(ip)) + ip[12:]
         etype = 0x0800
     return dst.mac + src.mac + struct.pack("!H", etype) + ip + seg
